@@ -123,6 +123,27 @@ func stubTable() map[string]stubFn {
 	m["strings.Repeat"] = func(in *Interp, fr *frame, args []Value) Value {
 		return strings.Repeat(mustStr(fr, args[0], "Repeat"), argInt(args[1]))
 	}
+	m["bytes.Equal"] = func(in *Interp, fr *frame, args []Value) Value {
+		a, aok := args[0].(Slice)
+		b, bok := args[1].(Slice)
+		if !aok || !bok {
+			panic(pathAbort{"unsupported: bytes.Equal on non-slices"})
+		}
+		if a.nilS {
+			a.len = 0
+		}
+		if b.nilS {
+			b.len = 0
+		}
+		if a.len != b.len {
+			return Bool(false)
+		}
+		r := Bool(true)
+		for i := 0; i < a.len; i++ {
+			r = BAnd(r, Eq(in.sliceGet(fr, a, i).(*Term), in.sliceGet(fr, b, i).(*Term)))
+		}
+		return r
+	}
 	// ---- strconv ----
 	m["encoding/hex.EncodeToString"] = func(in *Interp, fr *frame, args []Value) Value {
 		sl, ok := args[0].(Slice)
